@@ -605,7 +605,10 @@ def _classify(hp, r):
     if mon is not None and mon != "verdict ok":
         return {"kind": "spec-monitor", "concrete": True, "why": "specification monitor rejects the implementation's trace: " + mon}
     if not r.get("m_verdict", True):
-        return {"kind": "model-vs-spec", "concrete": False, "why": "the model's own trace is rejected by the specification (theorem broken?)"}
+        same = (not hp.has_monitor) and r.get("i_cmp") is not None and r.get("m_cmp") == r.get("i_cmp")
+        return {"kind": "model-vs-spec", "concrete": same,
+                "why": "the model's own trace differs from the specification (theorem broken?)" +
+                       ("; the implementation's trace equals the model's, so the implementation differs from the specification on this input" if same else "")}
     if r["m_cmp"] != r["i_cmp"]:
         k = 0
         while k < min(len(r["m_cmp"]), len(r["i_cmp"])) and r["m_cmp"][k] == r["i_cmp"][k]:
